@@ -388,6 +388,12 @@ impl DistinguishedName {
 				_ => return Err(Error::CouldNotParseCertificate),
 			};
 
+			// `DistinguishedName` holds one value per attribute type. A name that repeats a
+			// type (e.g. `DC=example, DC=com`) cannot be represented, and silently keeping only
+			// the last value would yield a different name.
+			if dn.get(&dn_type).is_some() {
+				return Err(Error::CouldNotParseCertificate);
+			}
 			dn.push(dn_type, dn_value);
 		}
 		Ok(dn)
